@@ -54,7 +54,7 @@ def main():
             'rendered': {mg: {'pretty': R.unit.by_mangled[mg].pretty, 'lines': body.count('\n') + 1, 'has_loops': fr.has_loops,
                               'back_edges': fr.back_edges}
                          for mg, (sig, body, fr) in R.rendered.items()},
-            'external': sorted(R.external), 'vcalls': R.vcalls, 'seconds': round(time.time() - t0, 2)}
+            'external': sorted(R.external), 'vcalls': R.vcalls, 'file_statics': sorted(R.file_statics), 'seconds': round(time.time() - t0, 2)}
     json.dump(meta, open(base + '.meta.json', 'w'), indent=1)
     for f in ('.cfg', '.ssa', '.opt', '.cls', '.o'):
         if not os.environ.get('G2C_KEEP'):
